@@ -516,7 +516,11 @@ def r03c(ctx):
     # CompoundEdit.on_diff recurses over self.edits()
     ce = m.find_class("CompoundEdit")
     od = m.method(ce, "on_diff") if ce else None
-    if od is not None and "self.edits()" in code(od.node) and "edit.on_diff(edit.from_node)" in code(od.node):
+    loops_ = [l_ for l_ in walk_no_nested(od.node) if isinstance(l_, ast.For) and isinstance(l_.target, ast.Name)
+              and isinstance(l_.iter, ast.Call) and self_attr(l_.iter.func) == "edits" and not l_.iter.args] if od is not None else []
+    if od is not None and any(isinstance(c_, ast.Call) and isinstance(c_.func, ast.Attribute) and c_.func.attr == "on_diff"
+                              and dotted(c_.func.value) == l_.target.id and len(c_.args) == 1 and dotted(c_.args[0]) == f"{l_.target.id}.from_node"
+                              for l_ in loops_ for s_ in l_.body for c_ in ast.walk(s_)):
         ctx.proved("R03c", od.file, "CompoundEdit.on_diff", od.node, "on_diff recursion",
                    "the annotated tree receives exactly the sub-edits edits() lists")
     else:
